@@ -96,6 +96,17 @@ def layouts(rng):
                                                                  Transport(label='t', duration=1), rnd(2)])
     yield 'rotators 90 then 180 then 45', lambda: PassSequence([Rotator(label='a', rotation=90), Rotator(label='b', rotation=180), Rotator(label='c', rotation=45), oval(1)])
     yield 'ending in a rotator', lambda: PassSequence([oval(1), Transport(label='t', duration=1), Rotator(label='last', rotation=45)])
+
+    def shared_template():
+        # one Roll template object given to two passes, and a pass built from the roll of another pass (a template that already belongs to a pass)
+        r = Roll(groove=RoundGroove(r1=1e-3, r2=12.5e-3, depth=11.5e-3), nominal_radius=160e-3, rotational_frequency=1)
+        first = RollPass(label='round2', roll=r, gap=2e-3)
+        again = RollPass(label='round3', roll=r, gap=1.5e-3)
+        taken = RollPass(label='round4', roll=first.roll, gap=1e-3)
+        seq = PassSequence([oval(1), Transport(label='t', duration=1), first, Transport(label='t2', duration=1), again, Transport(label='t3', duration=1), taken])
+        seq._verif_templates = [('the Roll template shared by round2 and round3', r)]
+        return seq
+    yield 'shared roll templates', shared_template
     yield 'cooling', lambda: PassSequence([oval(1), CoolingPipe(label='c', length=1, inner_radius=30e-3, coolant_volume_flux=1e-3, coolant_temperature=300),
                                            Transport(label='t', duration=1), rnd(2)])
 
@@ -216,6 +227,8 @@ def histories(chk, rng):
             w.add("the caller's incoming profile", ip)
             for label, roll in templates:
                 w.add("groove of " + label.split(' of ')[1], roll.groove)
+            for label, roll in getattr(seq, '_verif_templates', []):
+                w.add(label, roll)
             ops = ['solve', 'resolve-other', 'edit-later', 'copy-solve', 'resolve-same', 'stage']
             rng.shuffle(ops)
             ops = ['solve'] + [o for o in ops if o != 'solve']
@@ -283,6 +296,18 @@ def histories(chk, rng):
                     if extra or leaked:
                         chk.fail('set-mutated-in-place', f"[{name}] rotator {u.label!r} (rotation {u.rotation}): its profiles carry classifiers that only a later "
                                  f"unit can have added: {sorted(extra | leaked)} (in: {sorted(u.in_profile.classifiers)}, out: {sorted(u.out_profile.classifiers)})", data)
+                        return
+            # aliasing between positions: every pass has a roll of its own that names this pass as its owner
+            rolls = {}
+            for u in walk_units(seq):
+                if isinstance(u, RollPass):
+                    if id(u.roll) in rolls:
+                        chk.fail('roll-shared', f"[{name}] passes {rolls[id(u.roll)].label!r} and {u.label!r} work with the same roll object "
+                                 f"(what one solve stores on it shows in the other position)", data)
+                        return
+                    rolls[id(u.roll)] = u
+                    if u.roll.roll_pass is not u:
+                        chk.fail('roll-owner', f"[{name}] the roll of pass {u.label!r} names {getattr(u.roll.roll_pass, 'label', None)!r} as its pass", data)
                         return
             # aliasing between positions: no two positions share a Profile object; in-place change of one position's value must not show elsewhere
             seen = {}
